@@ -39,11 +39,15 @@ RULE = (
 )
 BOUNDS = {
     "quick": "4 roots (StateVector/Orbit x full/bare); histories of length <= 3 with the full alphabet (3 forms x 3 frames, "
-    "3 live objects); 2 full roots: length <= 4 with the core alphabet; access product over all 10 forms x 2 frames",
+    "3 live objects); 2 full roots: length <= 4 with the core alphabet; access product over all 10 forms x 2 frames; "
+    "12 collision chains (4 epochs / 3 orbits / 3 root forms, both orders, one process each, full alphabet length <= 2); "
+    "dynamic frames (user frame, station, orbit-attached frame, Hill): histories of length <= 4 of dumps / loads / "
+    "re-register the frame name with another definition / write / metadata / copy / frame assignment",
     "thorough": "6 roots (also covariance only / maneuvers only): histories of length <= 4 with the full alphabet; 2 full "
     "roots: histories of length <= 6 (the property's bound) with the core alphabet (2 forms, 2 frames, 2 live objects; "
     "copy, copy(form), copy(frame), as_orbit/as_statevector, form=, frame=, frame=Hill (fails half-way), write by index, "
-    "append / edit a maneuver, write a covariance cell); access product over all 10 forms x 2 frames",
+    "append / edit a maneuver, write a covariance cell); access product over all 10 forms x 2 frames; collision chains "
+    "with the full alphabet to length 3; dynamic-frame histories to length 5",
 }
 ASSUMPTIONS = [
     "forms of the history alphabet: cartesian, keplerian, spherical; frames: EME2000, ITRF, MOD (+ Hill and unknown "
@@ -51,17 +55,36 @@ ASSUMPTIONS = [
     "writes use a value derived from the model (current value rounded to 3 significant digits)",
     "a state in which an object disagrees with its model is reported and not expanded",
     "the covariance expressed in the state's frame follows the state's frame change (clause of C14) — part of the model",
+    "dynamic frames: the point a state denotes is A x + b with (A, b) the affine map of the ORIGINAL frame definition to "
+    "EME2000, taken from Frame.transform on basis states while the registry is pristine; the definition a frame object "
+    "carries is compared as plain data (class, name, station coordinates, reference orbit, local orientation, centre offset)",
+    "conversions of station / orbit-attached frames are looked up by NAME in class-level tables of the library, so after "
+    "a name is registered again every frame object of that name converts with the new definition; this registry "
+    "behaviour is not a C15 matter: after a re-registration such frames are compared by definition only (user frames "
+    "built on a built-in orientation keep the point check)",
 ]
 NOT_COVERED = (
     "other forms/frames inside histories, more than three live objects, histories beyond the stated lengths, "
-    "numpy views/slices of a state vector, `infos`, propagation; whether as_orbit()/as_statevector() results may share "
+    "numpy views/slices of a state vector, `infos`, propagation; what re-registering a station / orbit-frame name does to "
+    "existing objects of that frame; whether as_orbit()/as_statevector() results may share "
     "containers with the receiver (allowed here, reported as a note; set STRICT_CONVERSION_ALIASING to flag it)"
 )
 
 STRICT_CONVERSION_ALIASING = False
 
-DATE_ARGS = (2012, 6, 15, 8, 30, 17, 250000)
+EPOCHS = {
+    "d0": (2012, 6, 15, 8, 30, 17, 250000),
+    "d1": (2012, 6, 15, 14, 30, 17, 250000),
+    "d2": (2012, 6, 18, 8, 30, 17, 250000),
+    "d3": (2004, 2, 29, 21, 15, 40, 0),
+}
+DATE_ARGS = EPOCHS["d0"]
 KEP0 = (7.2345e6, 0.12345, 0.91234, 1.12345, 2.34567, 0.71234)
+ORBITS = {
+    "o0": KEP0,
+    "o1": (8.1234e6, 0.054321, 1.72345, 4.23456, 0.54321, 3.45678),
+    "o2": (1.23456e7, 0.34567, 0.43210, 5.43210, 1.23456, 5.67890),
+}
 FORMS_FULL = ["cartesian", "keplerian", "spherical"]
 FRAMES_FULL = ["EME2000", "ITRF", "MOD"]
 FORMS_RED = ["cartesian", "keplerian"]
@@ -100,19 +123,39 @@ def setup(config):
 
     _W["mu"] = float(Earth.mu)
     _W["fm"] = {}
+    # re-registering a frame name is an operation of the dynamic-frame part; the library logs "Overriding" each time
+    import logging
+
+    logging.getLogger("beyond.frames.frames").setLevel(logging.ERROR)
 
 
 def _date():
+    """Date of the root being explored (roots are explored one after the other; build_root selects the epoch)."""
     from beyond.dates import Date
 
-    if "date" not in _W:
-        _W["date"] = Date(*DATE_ARGS)
-    return _W["date"]
+    e = _W.get("epoch", "d0")
+    if ("date", e) not in _W:
+        _W[("date", e)] = Date(*EPOCHS[e])
+    return _W[("date", e)]
+
+
+def root_spec(root):
+    """A root is the name of a base root or a dict(base=, epoch=, orbit=, form=) overriding one coordinate of it."""
+    if isinstance(root, str):
+        return dict(ROOTS[root], epoch="d0", orbit="o0")
+    spec = dict(ROOTS[root["base"]], epoch=root.get("epoch", "d0"), orbit=root.get("orbit", "o0"))
+    if root.get("form"):
+        spec["form"] = root["form"]
+    return spec
+
+
+def root_id(root):
+    return root if isinstance(root, str) else tuple(sorted(root.items()))
 
 
 def fmap(a, b):
-    """6x6 state map between two built-in frames at the fixed date: data taken from the frame code (C02)."""
-    k = (a, b)
+    """6x6 state map between two built-in frames at the root's date: data taken from the frame code (C02)."""
+    k = (_W.get("epoch", "d0"), a, b)
     if k not in _W["fm"]:
         from beyond.frames.frames import get_frame
 
@@ -188,10 +231,11 @@ def build_root(rootname):
     from beyond.orbits import StateVector, Orbit
     from beyond.orbits.cov import Cov
 
-    spec = ROOTS[rootname]
+    spec = root_spec(rootname)
+    _W["epoch"] = spec["epoch"]
     mu = _W["mu"]
     S = sm()
-    cart = S.to_cart(KEP0, "keplerian", mu)
+    cart = S.to_cart(ORBITS[spec["orbit"]], "keplerian", mu)
     coords = S.from_cart(cart, spec["form"], mu)
     full = spec["full"]
     kw, meta, mans, cov = {}, [], (), None
@@ -655,6 +699,8 @@ def rebuild(rootname, hist, t):
 def check_case(case, t):
     if case.get("part") == "access":
         return check_access_case(case, t)
+    if case.get("part") == "dyn":
+        return dyn_check_case(case, t)
     w = rebuild(case["root"], case["history"][:-1], t)
     return step(w, case["history"][-1], case, t)
 
@@ -664,7 +710,7 @@ def check_case(case, t):
 
 
 def explore(rootname, depth, level, first_ops, t):
-    rid = (rootname, level)
+    rid = (root_id(rootname), level)
     w0 = build_root(rootname)
     seen = {canon(w0)}
     t.state((rid, canon(w0)))
@@ -840,6 +886,397 @@ def check_access_case(case, t):
 
 
 # ---------------------------------------------------------------------------
+# states expressed in dynamic frames: pickle.dumps / pickle.loads with operations in between (E1)
+#
+# A state given in a frame created at run time (user frame, station, orbit-attached frame) or in the Hill frame is
+# dumped, the world goes on (the source is modified, the frame NAME is registered again with another definition, ...),
+# and the dump is loaded.  Oracle: plain values remembered at dump time; the loaded object must carry the same numbers
+# and metadata and denote the same point of space, i.e. the affine map (A, b) of the ORIGINAL frame definition to
+# EME2000 -- taken from Frame.transform on basis states while the registry was pristine -- applied to its numbers.
+
+DYN_KINDS = ["custom", "station", "orbitframe", "hill"]
+DYN_NAME = {"custom": "C15Frm", "station": "C15Sta", "orbitframe": "C15Orb", "hill": "Hill"}
+DYN_COORDS = {
+    "custom": (6.9e6, 1.1e5, -5.2e4, 12.5, 7.51e3, 3.1e2),
+    "station": (1.2345e6, -4.321e5, 8.7654e5, 1.234e3, 2.345e3, -3.456e3),
+    "orbitframe": (123.4, -2345.6, 12.3, 0.0123, -0.234, 0.00123),
+    "hill": (123.4, -2345.6, 12.3, 0.0123, -0.234, 0.00123),
+}
+DYN_OPS_MAXOBJ = 3
+TOL_POINT = 1e-13  # scaled by 7e6 m / 7e3 m/s: the same affine map evaluated twice in double precision (observed 7e-17)
+
+
+def _dyn_snap():
+    if "snap" not in _W:
+        from mc import world
+        from beyond.frames import stations  # noqa: make sure every module that registers things is imported
+
+        _W["snap"] = world.snapshot()
+    return _W["snap"]
+
+
+def _dyn_ref_orbit(variant):
+    from beyond.orbits import Orbit
+
+    S = sm()
+    kep = ORBITS["o0"] if variant == 0 else ORBITS["o1"]
+    return Orbit(list(S.to_cart(kep, "keplerian", _W["mu"])), _date(), "cartesian", "EME2000", "Kepler")
+
+
+def dyn_make_frame(kind, variant):
+    """variant 0: the definition the objects are created with; variant 1: another definition under the same name."""
+    from beyond.frames import frames, orient, center
+    from beyond.frames.stations import create_station
+
+    if kind == "custom":
+        return frames.Frame("C15Frm", orient.EME2000 if variant == 0 else orient.ITRF, center.Earth, exists_warning=False)
+    if kind == "station":
+        return create_station("C15Sta", (43.428889, 1.497778, 178.0) if variant == 0 else (-35.4, 148.98, 690.0))
+    if kind == "orbitframe":
+        return frames.orbit2frame("C15Orb", _dyn_ref_orbit(variant), "QSW" if variant == 0 else "TNW", exists_warning=False)
+    if kind == "hill":
+        return frames.get_frame("Hill") if variant == 0 else frames.HillFrame("TNW")
+    raise ValueError(kind)
+
+
+def _vals(x):
+    try:
+        return tuple(float(v) for v in np.array(x, dtype=float))
+    except Exception:
+        return repr(x)
+
+
+def frame_desc(f):
+    """The DEFINITION a frame object carries, as plain values (class, name, orientation data, centre data)."""
+    o = f.orientation
+    c = f.center
+    if isinstance(o, str):
+        od = o
+    else:
+        od = (type(o).__name__, getattr(o, "name", None))
+        if hasattr(o, "latlonalt"):
+            od += (_vals(o.latlonalt),)
+        if hasattr(o, "statevector"):
+            sv = o.statevector
+            od += (o.orient, _vals(sv), sv.frame.name, date_key(sv.date), getattr(o.parent, "name", None))
+    cd = (type(c).__name__, getattr(c, "name", None))
+    off = getattr(c, "offset", None)
+    if off is not None:
+        cd += (_vals(off),)
+        if hasattr(off, "frame"):
+            cd += (off.frame.name, date_key(off.date))
+    return (type(f).__name__, f.name, od, cd)
+
+
+class DynWorld:
+    def __init__(self):
+        self.objs = []
+        self.models = []  # dict(cls, coords, fdesc, meta, cov, same) plain values
+        self.blobs = []  # (bytes, model at dump time) ; None once loaded
+        self.rereg = False
+        self.kind = None
+        self.A = None
+        self.b = None
+        self.F0 = None
+
+
+def dyn_affine(F0, date):
+    """(A, b) with  state_EME2000 = A @ state_F0 + b, from Frame.transform on plain basis states."""
+    from beyond.orbits import StateVector
+    from beyond.frames.frames import get_frame
+
+    eme = get_frame("EME2000")
+    z = np.array(F0.transform(StateVector([0.0] * 6, date, "cartesian", F0), eme), dtype=float)
+    cols = []
+    for k in range(6):
+        h = 1e6 if k < 3 else 1e3
+        e = [0.0] * 6
+        e[k] = h
+        cols.append((np.array(F0.transform(StateVector(e, date, "cartesian", F0), eme), dtype=float) - z) / h)
+    return np.array(cols).T, z
+
+
+def dyn_build(kind):
+    from mc import world
+    from beyond.orbits import StateVector
+    from beyond.orbits.cov import Cov
+
+    world.restore(_dyn_snap())
+    _W["epoch"] = "d0"
+    w = DynWorld()
+    w.kind = kind
+    F0 = dyn_make_frame(kind, 0)
+    w.F0 = F0
+    if kind != "hill":
+        w.A, w.b = dyn_affine(F0, _date())
+    x = StateVector(list(DYN_COORDS[kind]), _date(), "cartesian", F0, name="SAT-D", maneuvers=[_mk_man(MAN_SPECS[0])])
+    cov = None
+    if kind in ("custom", "station"):
+        x.cov = Cov(x, COV0, F0)
+        cov = ("=", tuple(float(v) for v in COV0.flatten()))  # "=": expressed in the state's own frame object
+    w.objs.append(x)
+    w.models.append(dict(cls="StateVector", coords=tuple(float(v) for v in DYN_COORDS[kind]), fdesc=frame_desc(F0),
+                         meta=(("name", "SAT-D"),), mans=(man_model(MAN_SPECS[0]),), cov=cov))
+    return w
+
+
+def dyn_alphabet(w):
+    ops = []
+    n = len(w.objs)
+    for i in range(n):
+        dyn = w.models[i]["fdesc"][1] != "EME2000"
+        if sum(b is not None for b in w.blobs) < 2 and len(w.blobs) < 3:
+            ops.append(["dumps", i])
+        ops.append(["w_idx", i])
+        ops.append(["meta", i])
+        if n < DYN_OPS_MAXOBJ:
+            ops.append(["copy", i])
+        # conversions of station / orbit frames are looked up BY NAME in class-level tables of the library: once the
+        # name is registered again they are those of the new definition for every frame object (registry semantics,
+        # not a matter of value semantics) -> no conversion of such frames after a re-registration
+        if dyn and w.kind != "hill" and (w.kind == "custom" or not w.rereg):
+            ops.append(["to_eme", i])
+            if not w.rereg:
+                ops.append(["to_self", i])
+    for b, blob in enumerate(w.blobs):
+        if blob is not None and n < DYN_OPS_MAXOBJ:
+            ops.append(["loads", b])
+    if not w.rereg:
+        ops.append(["rereg"])
+    return ops
+
+
+def dyn_point(x):
+    """Where the library says the object is, in EME2000, through the object's OWN frame."""
+    from beyond.orbits import StateVector
+    from beyond.frames.frames import get_frame
+
+    plain = StateVector(list(np.array(x, dtype=float)), x.date, "cartesian", x.frame)
+    return np.array(x.frame.transform(plain, get_frame("EME2000")), dtype=float)
+
+
+def dyn_observe(x):
+    d = x._data
+    c = d.get("cov")
+    cov = None
+    if c is not None:
+        cov = ("=" if c.frame is d["frame"] else frame_desc(c.frame) if not isinstance(c.frame, str) else c.frame,
+               tuple(float(v) for v in np.array(c, dtype=float).flatten()))
+    return dict(cls=type(x).__name__, coords=tuple(float(v) for v in np.array(x, dtype=float)), fdesc=frame_desc(d["frame"]),
+                meta=tuple(sorted((k, v) for k, v in d.items() if k not in RESERVED)),
+                mans=tuple(man_val(m) for m in (d.get("maneuvers") or [])), cov=cov,
+                form=d["form"].name, date=date_key(d["date"]))
+
+
+def dyn_step(w, op, case, t, checking=True):
+    S = sm()
+    k = op[0]
+    kind = w.kind
+    ms = [dict(m) for m in w.models]
+    where = f"{op} [{kind} frame, re-registered={w.rereg}]"
+    new_model = None
+    try:
+        if k == "dumps":
+            i = op[1]
+            w.blobs.append((pickle.dumps(w.objs[i]), dict(ms[i])))
+        elif k == "loads":
+            blob, snap = w.blobs[op[1]]
+            w.blobs[op[1]] = None
+            new_model = snap
+            w.objs.append(pickle.loads(blob))
+        elif k == "rereg":
+            dyn_make_frame(kind, 1)
+            w.rereg = True
+        elif k == "w_idx":
+            i = op[1]
+            v = S.sig3(ms[i]["coords"][0]) * 1.0009765625
+            w.objs[i][0] = v
+            ms[i]["coords"] = (v,) + ms[i]["coords"][1:]
+        elif k == "meta":
+            i = op[1]
+            w.objs[i].name = "renamed"
+            ms[i]["meta"] = (("name", "renamed"),)
+        elif k == "copy":
+            i = op[1]
+            new_model = dict(ms[i])
+            w.objs.append(w.objs[i].copy())
+        elif k == "to_eme":
+            i = op[1]
+            exp = w.A @ np.array(ms[i]["coords"]) + w.b
+            w.objs[i].frame = "EME2000"
+            ms[i]["coords"] = tuple(float(v) for v in exp)
+            ms[i]["fdesc"] = _W.setdefault("eme_desc", frame_desc(__import__("beyond.frames.frames", fromlist=["x"]).get_frame("EME2000")))
+            if ms[i]["cov"] is not None and ms[i]["cov"][0] == "=":
+                c = np.array(ms[i]["cov"][1]).reshape(6, 6)
+                ms[i]["cov"] = ("=", tuple(float(v) for v in (w.A @ c @ w.A.T).flatten()))
+        elif k == "to_self":
+            i = op[1]
+            w.objs[i].frame = DYN_NAME[kind]
+        else:
+            raise ValueError(k)
+        raised = None
+    except Exception as e:
+        raised = e
+    t.trans()
+    if new_model is not None and raised is None:
+        ms.append(new_model)
+    w.models = ms
+    if not checking:
+        if raised is None and k in ("to_eme", "to_self"):
+            _dyn_resync(w, op[1])
+        return raised is None
+    if raised is not None:
+        sig = f"pickle-dyn/{kind}/loads-raises" if k == "loads" else f"dyn/{kind}/{k}/raises"
+        t.fail(sig, "pickling preserves values and metadata / copy, conversion, assignment yield the documented result",
+               case, "success", repr(raised), where)
+        return False
+    ok = True
+    new_idx = len(w.objs) - 1 if k in ("loads", "copy") else None
+    for j, x in enumerate(w.objs):
+        o = dyn_observe(x)
+        M = w.models[j]
+        if j == new_idx:
+            base = f"pickle-dyn/{kind}" if k == "loads" else f"dyn/{kind}/copy/result"
+            clause = "pickling / copying preserves values and metadata (the frame is part of them)"
+        elif k in ("loads", "copy", "dumps", "rereg") or j != op[1]:
+            base = f"dyn/{kind}/{k}/other-object-changed"
+            clause = "an operation changes only the object it names"
+        else:
+            base = f"dyn/{kind}/{k}/wrong"
+            clause = "assignment changes exactly what it names"
+        bad = []
+        for f in ("cls", "meta", "mans"):
+            if o[f] != M[f]:
+                bad.append((f, M[f], o[f]))
+        if o["form"] != "cartesian" or o["date"] != date_key(_date()):
+            bad.append(("form-or-date", ("cartesian", date_key(_date())), (o["form"], o["date"])))
+        if o["fdesc"] != M["fdesc"]:
+            bad.append(("frame-definition", M["fdesc"], o["fdesc"]))
+        exact = k not in ("to_eme", "to_self") or j != op[1]
+        ce, co = np.array(M["coords"]), np.array(o["coords"])
+        sc = np.array([7e6] * 3 + [7e3] * 3)
+        if exact:
+            if o["coords"] != M["coords"]:
+                bad.append(("values", M["coords"], o["coords"]))
+        else:
+            err = float(np.max(np.abs(ce - co) / sc))
+            if not t.margin("dynamic frame: coordinates after frame assignment (scaled)", err, TOL_POINT, case):
+                bad.append(("values", M["coords"], o["coords"]))
+        if (o["cov"] is None) != (M["cov"] is None):
+            bad.append(("cov-presence", M["cov"], o["cov"]))
+        elif o["cov"] is not None:
+            if o["cov"][0] != M["cov"][0]:
+                bad.append(("cov-frame", M["cov"][0], o["cov"][0]))
+            else:
+                e6, c6 = np.array(M["cov"][1]).reshape(6, 6), np.array(o["cov"][1]).reshape(6, 6)
+                s6 = np.array([math.sqrt(np.trace(e6[:3, :3]) / 3)] * 3 + [math.sqrt(np.trace(e6[3:, 3:]) / 3)] * 3)
+                err = float(np.max(np.abs(e6 - c6) / np.outer(s6, s6)))
+                if not t.margin("dynamic frame: covariance vs model (scaled)", err, TOL_COV, case):
+                    bad.append(("cov-values", M["cov"], o["cov"]))
+        # the point of space the object denotes, through its own frame, vs the ORIGINAL definition applied to the model
+        point_ok = kind == "custom" or (kind != "hill" and not w.rereg)
+        if not point_ok:
+            pass
+        elif not any(f == "frame-definition" for f, _, _ in bad):
+            try:
+                if M["fdesc"][1] == "EME2000":
+                    exp = np.array(M["coords"])
+                else:
+                    exp = w.A @ np.array(M["coords"]) + w.b
+                got = dyn_point(x)
+                err = float(np.max(np.abs(exp - got) / sc))
+                if not t.margin("dynamic frame: point denoted in EME2000 (scaled)", err, TOL_POINT, case):
+                    bad.append(("point", exp, got))
+            except Exception as e:
+                bad.append(("point", "convertible to EME2000", repr(e)))
+        else:
+            # the frame changed its definition: show what that does to the point
+            try:
+                exp = w.A @ np.array(M["coords"]) + w.b
+                got = dyn_point(x)
+                if float(np.max(np.abs(exp - got) / sc)) > TOL_POINT:
+                    bad.append(("point", exp, got))
+            except Exception as e:
+                bad.append(("point", "convertible to EME2000", repr(e)))
+        for f, e_, o_ in bad:
+            t.fail(f"{base}/{f}", clause, case, e_, o_, f"{where}: object {j} field {f}")
+            ok = False
+    if ok and k in ("to_eme", "to_self"):
+        _dyn_resync(w, op[1])
+    return ok
+
+
+def _dyn_resync(w, i):
+    """After an assignment compared within tolerance the model adopts the object's numbers, so that all later
+    comparisons (copies, pickles, untouched objects) are bit-exact."""
+    o = dyn_observe(w.objs[i])
+    w.models[i] = dict(w.models[i], coords=o["coords"])
+    if o["cov"] is not None and w.models[i]["cov"] is not None and o["cov"][0] == w.models[i]["cov"][0]:
+        w.models[i]["cov"] = o["cov"]
+
+
+def dyn_canon(w):
+    reg = None
+    from beyond.frames.frames import dynamic
+
+    objs = []
+    for x, M in zip(w.objs, w.models):
+        d = x._data
+        c = d.get("cov")
+        objs.append((M["cls"], tuple(_r9(v) for v in M["coords"]), M["fdesc"], M["meta"], M["mans"],
+                     None if M["cov"] is None else (M["cov"][0], tuple(_r9(v) for v in M["cov"][1])),
+                     d["frame"] is dynamic.get(DYN_NAME[w.kind]), d["frame"] is w.F0,
+                     None if c is None else c.frame is d["frame"]))
+    ids = {}
+    mans = tuple(tuple(ids.setdefault(id(m), len(ids)) for m in (x._data.get("maneuvers") or [])) for x in w.objs)
+    blobs = tuple(None if b is None else (tuple(_r9(v) for v in b[1]["coords"]), b[1]["meta"], b[1]["fdesc"]) for b in w.blobs)
+    return (w.kind, tuple(objs), mans, blobs, w.rereg)
+
+
+def dyn_rebuild(kind, hist, t):
+    w = dyn_build(kind)
+    for op in hist:
+        dyn_step(w, op, None, t, checking=False)
+    return w
+
+
+def dyn_check_case(case, t):
+    w = dyn_rebuild(case["kind"], case["history"][:-1], t)
+    return dyn_step(w, case["history"][-1], case, t)
+
+
+def dyn_explore(kind, depth, t):
+    w0 = dyn_build(kind)
+    seen = {dyn_canon(w0)}
+    t.state(("dyn", dyn_canon(w0)))
+    frontier = [[]]
+    for d in range(depth):
+        nxt = []
+        for hist in frontier:
+            w = dyn_rebuild(kind, hist, t)
+            ksrc = dyn_canon(w)
+            for op in dyn_alphabet(w):
+                w = dyn_rebuild(kind, hist, t)
+                case = dict(part="dyn", kind=kind, history=[list(x) for x in hist] + [list(op)])
+                ok = dyn_step(w, op, case, t)
+                k = dyn_canon(w) if ok else None
+                t.ev(("dyn", ksrc, tuple(op)) if k != ksrc else None)
+                t.outcome(("dyn", kind, op[0], ok))
+                if ok and k not in seen:
+                    seen.add(k)
+                    t.state(("dyn", k))
+                    nxt.append(hist + [list(op)])
+                    if op[0] == "loads" and w.rereg and len(t.samples) < 3:
+                        t.sample(case)
+        frontier = nxt
+        if not frontier:
+            break
+    from mc import world
+
+    world.restore(_dyn_snap())
+
+
+# ---------------------------------------------------------------------------
 
 
 def units(tier, seed):
@@ -863,6 +1300,20 @@ def units(tier, seed):
         for r in ROOTS:
             for s in range(split):
                 u.append((cfg, dict(part="hist", root=r, depth=4, level="full", first=[s, split])))
+    # collision chains: roots that differ in exactly one coordinate (epoch / orbit / form of the root), explored one
+    # after the other in ONE process, in both orders: anything the library keeps between calls that is keyed without
+    # that coordinate makes the later root disagree with its own model
+    cdepth = 2 if tier == "quick" else 3
+    for base in ("sv_full", "orb_full"):
+        for kind, roots in (
+            ("epoch", [dict(base=base, epoch=e) for e in EPOCHS]),
+            ("orbit", [dict(base=base, orbit=o) for o in ORBITS]),
+            ("form", [dict(base=base, form=f) for f in FORMS_FULL]),
+        ):
+            u.append((cfg, dict(part="chain", chain=kind, roots=roots, depth=cdepth, level="full")))
+            u.append((cfg, dict(part="chain", chain=kind + "-reversed", roots=roots[::-1], depth=cdepth, level="full")))
+    for kind in DYN_KINDS:
+        u.append((cfg, dict(part="dyn", kind=kind, depth=4 if tier == "quick" else 5)))
     forms = ["tle", "keplerian_circular", "keplerian_mean", "keplerian_mean_circular", "keplerian_eccentric", "keplerian",
              "spherical", "cartesian", "equinoctial", "cylindrical"]
     for r in ("sv_full", "orb_bare"):
@@ -879,6 +1330,14 @@ def run_unit(p, t):
         for f in p["forms"]:
             for fr in p["frames"]:
                 check_access_case(dict(part="access", root=p["root"], form=f, frame=fr), t)
+        return
+    if p["part"] == "dyn":
+        dyn_explore(p["kind"], p["depth"], t)
+        return
+    if p["part"] == "chain":
+        for r in p["roots"]:
+            explore(r, p["depth"], p["level"], None, t)
+        t.note("collision chains (roots differing in one coordinate, explored in one process)", 1)
         return
     explore(p["root"], p["depth"], p["level"], p["first"], t)
 
